@@ -162,6 +162,7 @@ func cmdCheck(args []string) int {
 	workDir := filepath.Join(verifDir, ".work", id)
 	os.RemoveAll(workDir)
 	var all, infoObls []*Obligation
+	var namesSeen map[string]map[string][]recName
 	var unbound, contractErrs, unsupported, notes []string
 	trusted := map[string]bool{}
 	assumeSites := 0
@@ -184,6 +185,12 @@ func cmdCheck(args []string) int {
 			unsupported = append(unsupported, k+": "+res.Unsupported)
 		}
 		funcsUnder = append(funcsUnder, k)
+		if *updateBaseline {
+			if namesSeen == nil {
+				namesSeen = map[string]map[string][]recName{}
+			}
+			namesSeen[k] = v.currentNames()
+		}
 		for _, o := range res.Obls {
 			if o.Info {
 				infoObls = append(infoObls, o)
@@ -300,6 +307,15 @@ func cmdCheck(args []string) int {
 		return 2
 	}
 	if *updateBaseline {
+		// the names of locals as they are now (see applyRecordedNames)
+		loadRecordedNames()
+		for k, m := range namesSeen {
+			recordedNames[k] = m
+		}
+		if nb, err := json.MarshalIndent(recordedNames, "", " "); err == nil {
+			os.MkdirAll(filepath.Join(verifDir, "baseline"), 0o755)
+			os.WriteFile(namesFile(), nb, 0o644)
+		}
 		var lines []string
 		for _, oid := range order {
 			if agg[oid].OK && !agg[oid].Cover {
